@@ -288,6 +288,28 @@ def check(ctx):
            "__init__: `_projected` starts falsy" if ok else
            f"__init__: `_projected` starts as {fmt(v)}",
            key="C14.3:init")
+    # typestate ownership: nothing but __init__ (falsy) and project (truthy)
+    # may write `_projected` — a reset elsewhere re-arms a second projection
+    from ..lib import sweep
+    writers = []
+    for q, res in sorted(sweep(prog, "plain").items()):
+        for e in res.of_kind("setattr", "delattr"):
+            if e.data["name"] == "_projected" and e.depth == 0:
+                writers.append((q, e))
+        for e in res.of_kind("call"):
+            if (e.data.get("name") or "") in ("builtins.setattr",
+                                              "builtins.delattr") and any(
+                    tm.is_const(a, "_projected") for a in e.data["args"]):
+                writers.append((q, e))
+    foreign = [(q, e) for q, e in writers
+               if q not in (f"{PATH}.__init__", f"{PATH}.project")]
+    ctx.ob("C14.3", foreign[0][1] if foreign else init, not foreign,
+           f"`_projected` is written only by __init__ and project "
+           f"({len(writers)} writes)" if not foreign else
+           f"{foreign[0][0]} writes `_projected`: the one-shot state of a "
+           f"projected trajectory can be reset, so a second projection of "
+           f"the same object is no longer refused",
+           key="C14.3:writers")
 
 
 VARIANTS = [
